@@ -108,6 +108,7 @@ type verifClient struct {
 	requests int
 	hang     bool // requests block until their context ends (then fail with its error)
 	mayCancel *verifCtx // the caller of the operation may give up after any request
+	mayLack   bool      // the service may have lost a name the store knows (deleted on the server): requests for it answer api.ErrNotFound
 }
 
 func (c *verifClient) answer(ctx context.Context, name string) (*api.SecretValue, error) {
@@ -127,6 +128,7 @@ func (c *verifClient) answer(ctx context.Context, name string) (*api.SecretValue
 	}
 	sv := c.svc[name]
 	if sv == nil {
+		ghostLog("svc.notfound")
 		return nil, api.ErrNotFound
 	}
 	if c.mayCancel != nil {
@@ -219,6 +221,12 @@ var verifSF struct {
 	followerFn func(key string) (any, error)
 	strict     bool
 	other      bool // the call is the other caller's own flight
+	// poll coalescing: another caller's poll may be in flight when this caller asks for one
+	joinPoll bool
+	onJoin   func()
+	inflight string // key of the flight in progress that this caller joined
+	// another goroutine may run to completion between this caller's Do call and the start of its flight
+	beforeLead func()
 }
 
 func verifStubSFDo(g *singleflight.Group, key string, fn func() (any, error)) (any, error, bool) {
@@ -236,6 +244,11 @@ func verifStubSFDo(g *singleflight.Group, key string, fn func() (any, error)) (a
 		v, err := fn()
 		return v, err, false
 	}
+	if verifSF.beforeLead != nil {
+		f := verifSF.beforeLead
+		verifSF.beforeLead = nil
+		f()
+	}
 	if verifSF.strict {
 		// a caller that already led a flight and saw it fail must report that failure, not start over
 		assert("a-caller-leads-at-most-once", ghostCount("sf.led") == 0)
@@ -250,9 +263,26 @@ func verifStubSFDoChan(g *singleflight.Group, key string, fn func() (any, error)
 	verifSF.keys = append(verifSF.keys, key)
 	ghostLog("sf.dochan")
 	ch := make(chan singleflight.Result, 1)
+	if verifSF.joinPoll {
+		if nondetBool("sf.poll.already.in.flight") {
+			// a duplicate call joins the flight in progress: fn is NOT run again, the result arrives when that flight ends
+			ghostLog("sf.joined")
+			verifSF.inflight = key
+			if verifSF.onJoin != nil {
+				verifSF.onJoin()
+			}
+			return ch
+		}
+	}
 	v, err := fn()
 	ch <- singleflight.Result{Val: v, Err: err}
 	return ch
+}
+
+// Forget makes the next call for key start a second execution although one is still in flight.
+func verifStubSFForget(g *singleflight.Group, key string) {
+	ghostLog("sf.forget")
+	assert("flight-in-progress-never-forgotten", verifSF.inflight != key)
 }
 
 func verifLogf(format string, args ...any) {}
@@ -272,6 +302,7 @@ var verifPendingSleep time.Duration
 func verifEnvReset() {
 	verifNowSec, verifNowNS = 0, 0
 	verifSF.keys, verifSF.follower, verifSF.followerFn, verifSF.strict, verifSF.other = nil, false, nil, false, false
+	verifSF.joinPoll, verifSF.onJoin, verifSF.inflight, verifSF.beforeLead = false, nil, "", nil
 	verifSleeps = nil
 	verifLastTimeout = 0
 }
@@ -296,16 +327,31 @@ func verifSymStore(n int, client *verifClient, cache Cache) *Store {
 	s.active.f = map[string]Secret{}
 	s.active.w = map[string][]watcher{}
 	client.svc = map[string]*api.SecretValue{}
+	verifSlots = nil
 	for i := 0; i < n; i++ {
 		name := nondetString("st.name")
 		p := nondetBool("st.p")
+		verifSlots = append(verifSlots, verifSlot{name, p})
 		mapPutIf(s.active.m, name, verifSymCached(nondetBool("st.declared")), p)
 		mapPutIf(s.active.f, name, Secret(func() []byte { return nil }), and(p, nondetBool("st.handle")))
-		mapPutIf(client.svc, name, &api.SecretValue{Value: nondetSeq("svc.val"), Version: api.SecretVersion(nondetU32("svc.ver"))}, p)
+		has := p
+		if client.mayLack {
+			has = and(p, nondetBool("svc.has"))
+		}
+		mapPutIf(client.svc, name, &api.SecretValue{Value: nondetSeq("svc.val"), Version: api.SecretVersion(nondetU32("svc.ver"))}, has)
 	}
 	s.ctx = verifBackground()
 	return s
 }
+
+// the slots verifSymStore filled, in order, with their presence: iterating them draws nondeterministic values in the
+// same order under the engine and natively (a native map has no entry for an absent slot)
+type verifSlot struct {
+	name    string
+	present bool
+}
+
+var verifSlots []verifSlot
 
 // verifStoreInv (J): every known name has a value; handles and watchers only for known names.
 func verifStoreInv(s *Store) bool {
